@@ -29,7 +29,7 @@ JudgeEdges(decl, gen, fe, gpol, edges, ranges, expect) ==
   LET gp == gpol % 2
       v == PropertyClause(decl, gen, fe, gp, edges, ranges)
       s == RunTape(gen, fe, gp)
-  IN IF decl # gen /\ ExpectedSignals(decl, fe, gp) # ExpectedSignals(gen, fe, gp) THEN "machinery-shape"
+  IN IF decl # gen /\ ~SameTape(decl, gen, fe, gp) THEN "machinery-shape"
      ELSE IF v # "ok" THEN v
      ELSE IF Len(expect) > 0 /\ expect # s.edges THEN "machinery-replay"
      ELSE IF edges # s.edges THEN "drift-edges"
